@@ -11,7 +11,7 @@
    by SOME history; convert stands for convertToLogicalLines, is_mk for the
    ".mk" suffix test; both are arbitrary. *)
 From PV Require Import Lib.Bytes Model.FileCache Spec.FreshLoad
-  Proofs.FileCacheWf Proofs.FileCacheInv Proofs.FileCache.
+  Proofs.FileCacheWf Proofs.FileCacheInv Proofs.FileCache Proofs.FileCacheSim.
 From Coq Require Import Permutation.
 Open Scope N_scope.
 
@@ -74,6 +74,24 @@ Theorem C20_load_transparent_partial :
   load_obs s' r = fresh_read convert (st_disk s) fn o /\ st_disk s' = st_disk s.
 Proof. exact load_transparent. Qed.
 Print Assumptions C20_load_transparent_partial.
+
+(* The same for whole histories: if the guard holds at every Load of a history
+   (`guarded`: evaluated along the run of the machine with the cache), then the
+   run shows exactly what the run of the machine WITHOUT a cache shows (no_mk:
+   nothing is ever Put, every Load reads the disk): the same observation for every
+   operation (lines returned by each Load, bytes written by each save), the same
+   panic / fatal stop if any, and the same disk at the end. *)
+Theorem C20_cache_unobservable :
+  forall convert is_mk md cap disk h, (1 <= cap)%nat ->
+  guarded convert is_mk md (init_state cap disk) h = true ->
+  snd (fst (run convert is_mk md (init_state cap disk) h)) =
+  snd (fst (run convert no_mk md (init_state cap disk) h)) /\
+  snd (run convert is_mk md (init_state cap disk) h) =
+  snd (run convert no_mk md (init_state cap disk) h) /\
+  st_disk (fst (fst (run convert is_mk md (init_state cap disk) h))) =
+  st_disk (fst (fst (run convert no_mk md (init_state cap disk) h))).
+Proof. exact cache_unobservable. Qed.
+Print Assumptions C20_cache_unobservable.
 
 (* The full statement (no guard) is FALSE of the faithful model: FileCache.Put keeps
    the caller's *Lines, ReplaceAt edits Line.Text of those objects in every mode,
@@ -151,6 +169,13 @@ Proof.
   exists s', r. split; auto.
   destruct md; vm_compute in L; inversion L; subst; vm_compute; split; congruence.
 Qed.
+
+(* a guarded history with a hit, a fix, a save and a reload; without the save it is not guarded *)
+Example C20_guarded_history :
+  guarded convert_plain all_mk ModeAutofix (init_state 2 wit_disk)
+          ([OLoad (0, 0) 4; OLoad (0, 1) 4] ++ [OFix 0 0 (FReplaceAt 0 2 [32] [9]); OSave 0; OLoad (0, 0) 4]) = true /\
+  guarded convert_plain all_mk ModeAutofix (init_state 2 wit_disk) (wit_ops ++ [OLoad (0, 0) 4]) = false.
+Proof. split; vm_compute; reflexivity. Qed.
 
 (* a cache hit under the guard: two loads in a row, the second is served by Get *)
 Example C20_hit_under_guard :
